@@ -43,7 +43,8 @@ def _case(draw, focus, tier="quick"):
         labs.append(draw(lab_spec(names[i], kind=kind, max_rows=6, max_cols=6 if kind == "plate" else 4, regime=draw(st.sampled_from(["roomy", "tight"])), grid=True, pos=(10 + i, 1 + i), filled=True if i == 0 else None)))
     vs = st.one_of(vs_ok(0.01), vs_ok(0.01), vs_mixed(0.01))
     # "route": force trough -> plate (the case in which the automatic partitioning differs from "source") or plate -> trough
-    t = st.tuples(op_transfer(vs, max_n=5), st.sampled_from([None, "t2p", "t2p", "p2t", "chain", "chain", "lvhmix", "lvhmix", "one2one"]), st.sampled_from(["auto", "auto", None])).map(
+    tkw = st.sampled_from([{}, {}, {}, {"liquid_class": "Water free"}, {"tip": 3}, {"tip": [1, 2], "liquid_class": "LC"}, {"rack_id": "R1", "tube_id": "t", "rack_type": "96 Well"}, {"forced_rack_type": "F"}])
+    t = st.tuples(op_transfer(vs, max_n=5, kw=tkw), st.sampled_from([None, "t2p", "t2p", "p2t", "chain", "chain", "lvhmix", "lvhmix", "one2one"]), st.sampled_from(["auto", "auto", None])).map(
         lambda x: dict(x[0], route=x[1], pb=x[2] or x[0]["pb"])
     )
     d = op_distribute(vs, max_n=5)
